@@ -39,9 +39,15 @@ def gen_raw(rng, known, unknown, w_ref=0.25, w_unknown=0.0, depth=0):
     return {'rawmacro': rng.choice(['m1', 'm2', 'a/b'])}
   if depth < 2 and r < w_ref + 0.25:
     n = rng.randint(1, 3)
-    if rng.random() < 0.5:
+    rr = rng.random()
+    if rr < 0.4:
       return {'l': [gen_raw(rng, known, unknown, w_ref, w_unknown, depth + 1) for _ in range(n)]}
-    return {'t': [gen_raw(rng, known, unknown, w_ref, w_unknown, depth + 1) for _ in range(n)]}
+    if rr < 0.75:
+      return {'t': [gen_raw(rng, known, unknown, w_ref, w_unknown, depth + 1) for _ in range(n)]}
+    keys = rng.sample([1, 2, {'s': 'k'}, {'s': 'j'}], min(n, 2))
+    from encode import canon
+    keys = sorted(keys, key=canon)
+    return {'d': [[kk, gen_raw(rng, known, unknown, w_ref, w_unknown, depth + 1)] for kk in keys]}
   return G.gen_value(rng, 1)
 
 
